@@ -608,6 +608,10 @@ class Models(Simd):
         if it[0] == "it" and it[1] == "range" and k[0] == "i":
             cur, end = it[2], it[3]
             return ("it", "range", cur, I(min(end[1], cur[1] + k[1]), min(end[2], cur[2] + k[2])), it[4])
+        if it[0] == "it" and it[1] in ("slice", "vals", "cvals") and k[0] == "i" and not (len(it) > 5 and it[5]):
+            # the first k items of a (forward) slice / array iterator: the same iterator with its end moved
+            cur, end = it[3], it[4]
+            return (it[0], it[1], it[2], cur, I(min(end[1], cur[1] + k[1]), min(end[2], cur[2] + k[2]))) + tuple(it[5:])
         return TOP
 
     def m_step_by(self, ip, fv, st, depth, t, n, a, dty):
